@@ -43,7 +43,7 @@ PROPS = {
                 "iteration orders) and any order-dependent answer is reported; distinct = distinct line",
     },
     "C19": {
-        "modules": ["BioSeq.Props.C19"],
+        "modules": ["BioSeq.Props.C19", "BioSeq.Props.C19Array"],
         "rule": "conversion/trim op lines: DNA->IUPAC and DNA->text from slices at every offset and owned copies (lengths 0,1,31..33,random); trim_u8 for 7 codecs on byte strings "
                 "with refused bytes at the ends and in the interior, empty, all-bad, every single byte as a delimiter; the symbol maps (incl. text->DNA on all 256 bytes) are extracted "
                 "exhaustively and decided in Lean; distinct = distinct line",
@@ -81,7 +81,7 @@ PROPS = {
                 "iterator k-mers hash like their windows; 7 codecs; non-trivial = carries a non-empty text or a k-mer; distinct = distinct line",
     },
     "C04": {
-        "modules": ["BioSeq.Props.C04"],
+        "modules": ["BioSeq.Props.C04", "BioSeq.Props.C04Words"],
         "rule": "packing op lines: usize/u8 conversion of slices (0, 1, fitting, one-too-long) at every offset, k-mer<->integer (all small ints, extremes, random) "
                 "with display/deref, raw image of owned values from every production route (parsed, collected, copied from offset slice, reversed, complemented, edited, "
                 "bit-op'd), from_raw with every count 0..capacity+2 and overflowing counts, from_raw of random word arrays; 7 codecs; distinct = distinct line",
@@ -94,12 +94,12 @@ PROPS = {
                 "out-of-bounds arguments; random histories (depth <= 12, up to 200 symbols) from every production route incl. clones, with raw image; distinct = distinct line",
     },
     "C08": {
-        "modules": ["BioSeq.Props.C08", "BioSeq.Props.Composed"],
+        "modules": ["BioSeq.Props.C08", "BioSeq.Props.C11Std", "BioSeq.Props.Composed"],
         "rule": "k-mer construction/iteration op lines: kmers::<K> vs windows(K) for every fitting K (sampled in quick) x n in {0,K-1,K,K+1,K+4} x offsets, "
                 "try_from (slice, owned), from_str (valid / wrong length / bad byte), unsafe_from, Display, Deref, From<Kmer> for Seq, usize/u64/u128; distinct = distinct line",
     },
     "C10": {
-        "modules": ["BioSeq.Props.C10", "BioSeq.Props.Composed"],
+        "modules": ["BioSeq.Props.C10", "BioSeq.Props.C10Order", "BioSeq.Props.Composed"],
         "rule": "ordering op lines: all pairs of k-mers for K<=3 (sampled when large), random pairs for every fitting K x 3 storages, cmp/lt/le/partial_cmp consistency, "
                 "min/max/sort over a sequence's k-mers, Ord on owned sequences of equal and unequal lengths; the 5 Ord codecs; distinct = distinct line",
     },
@@ -111,7 +111,7 @@ PROPS = {
                 "non-trivial = carries a non-empty text; distinct = distinct line",
     },
     "C11": {
-        "modules": ["BioSeq.Props.C11"],
+        "modules": ["BioSeq.Props.C11", "BioSeq.Props.C11Std"],
         "rule": "iterator op lines: iter/into_iter/rev_iter/windows/chunks/chain (+ IntoIterator for &Seq, Vec<Seq> from chunks) on slices at every "
                 "reachable bit offset, lengths 0,1,5, word-boundary lengths, every width 1..n+2 (and 0 for windows), 7 codecs, random nested slices; "
                 "non-trivial = carries a non-empty text; distinct = distinct line",
